@@ -122,8 +122,8 @@ the first sixty. What was removed this time (again only causes that are generic,
 
 After these changes **%d of the %d probes are silent on all 20 checks**; the other %d still fail at least one check although the property
 holds. They are listed below as *known fail-closed cases*: restructurings that need algebraic or inductive knowledge the extractors do not have
-(a `while taken { redraw }` search with a mutated candidate, a recursion over the quantifier prefix rewritten as peel-loop + fold), a verdict flag moved into a helper that returns it, option flags
-copied into a new struct whose methods read them, or a whole function (`completion`, `Files::sort`) rebuilt around a new type.
+(a recursion over the quantifier prefix rewritten as peel-loop + fold), option flags and portfolio tables copied into a new struct whose
+methods read them, or a whole function (`completion`) rebuilt around a new type whose `&mut self` methods do the steps.
 A failing check on such an edit reports an `ANALYSIS-GAP` or a template mismatch naming the function; it is the one known way these
 checks can fail on code where the property still holds, and the reason is in the report.
 
